@@ -340,6 +340,13 @@ var misuses = []misuse{
 	{"noerror", "fmap", "deriveFmapX(func(int) int { return 0 }, func() (int, string) { return 0, \"\" })"},
 	{"nobool", "toerror", "deriveToErrorX(nil, func() int { return 0 })"},
 	{"nobool", "filter", "deriveFilterX(func(int) int { return 0 }, []int{})"},
+	// legal and supported: a result whose zero value is not spelled 0, "" or false although its kind is basic
+	{"unsafe-pointer-result", "compose", "deriveComposeX(func() (unsafe.Pointer, error) { return nil, nil }, func(unsafe.Pointer) (unsafe.Pointer, int, error) { return nil, 0, nil })"},
+	{"unsafe-pointer-result", "traverse", "deriveTraverseX(func(int) (unsafe.Pointer, error) { return nil, nil }, []int{})"},
+	{"unsafe-pointer-result", "join", "deriveJoinX(func() (unsafe.Pointer, error) { return nil, nil }, nil)"},
+	{"unsafe-pointer-result", "fmap", "deriveFmapX(func(int) unsafe.Pointer { return nil }, func() (int, error) { return 0, nil })"},
+	{"unsafe-pointer-result", "toerror", "deriveToErrorX(nil, func() (unsafe.Pointer, bool) { return nil, true })"},
+	{"unsafe-pointer-result", "do", "deriveDoX(func() (unsafe.Pointer, error) { return nil, nil }, func() (int, error) { return 0, nil })"},
 	{"noresult", "uncurry", "deriveUncurryX(func(int) {})"},
 	{"noresult", "compose", "deriveComposeX(func() {}, func() {})"},
 	{"oneparam", "curry", "deriveCurryX(func(int) int { return 0 })"},
@@ -490,6 +497,9 @@ func drawFault(t *rapid.T, n int) *faultCase {
 	case 6, 7, 8:
 		m := misuses[rapid.IntRange(0, len(misuses)-1).Draw(t, "misuse")]
 		mdecl, mcall := splitMisuse(m.call)
+		if strings.Contains(mcall, "unsafe.") {
+			p.Import("unsafe")
+		}
 		p.Add("%sfunc u() {\n\t%s\n}\n", mdecl, mcall)
 		fc.plugin, fc.fault, fc.position = m.plugin, m.name, "call"
 		fc.desc = mcall
@@ -684,6 +694,9 @@ func sweep(c *pkit.Ctx) {
 	for _, m := range misuses {
 		p, _ := base()
 		mdecl, mcall := splitMisuse(m.call)
+		if strings.Contains(mcall, "unsafe.") {
+			p.Import("unsafe")
+		}
 		p.Add("%sfunc u() {\n\t%s\n}\n", mdecl, mcall)
 		run(&faultCase{plugin: m.plugin, fault: m.name, position: "call", desc: mcall}, p.Files())
 	}
